@@ -492,24 +492,29 @@ fn judge_history(env: &Env, z: &mut Zygote, spec: &HistorySpec, hr: &mut History
             in_place: 0,
             in_place_ok: 0,
         };
-        if r.portfolio.is_some() {
-            // judged by the portfolio oracle (needs the members' solo verdicts), see `judge_portfolio`
-            j.emitted = collect_emitted(spec, seg, &new_files);
-            hr.judgements.push(j);
-            continue;
-        }
-        if !failed && !must_fail(r) {
-            hr.judgements.push(j);
-            continue;
-        }
-        j.judged = true;
-        if !failed {
-            j.syms.push(Sym::NotSurfaced);
-            hr.judgements.push(j);
-            continue;
-        }
-        if let Some(m) = bodies::payload_mismatch(r.kind, &o.outcome) {
-            j.syms.push(Sym::Payload(m));
+        let is_pf = r.portfolio.is_some();
+        if is_pf {
+            // "fails iff a member fails" needs the members' solo verdicts and is decided in
+            // `judge_portfolios`; emission and replay of a failing portfolio are judged right here,
+            // exactly like a single run's.
+            if !failed {
+                hr.judgements.push(j);
+                continue;
+            }
+        } else {
+            if !failed && !must_fail(r) {
+                hr.judgements.push(j);
+                continue;
+            }
+            j.judged = true;
+            if !failed {
+                j.syms.push(Sym::NotSurfaced);
+                hr.judgements.push(j);
+                continue;
+            }
+            if let Some(m) = bodies::payload_mismatch(r.kind, &o.outcome) {
+                j.syms.push(Sym::Payload(m));
+            }
         }
         let n_err = seg.schedules.len();
         if seg.schedules.iter().any(|s| s.is_err()) {
@@ -573,7 +578,16 @@ fn judge_history(env: &Env, z: &mut Zygote, spec: &HistorySpec, hr: &mut History
         // and replaying it reproduces the same failure": the run conforms if at least one schedule
         // emitted in the configured way does; several emissions for one failure are allowed (and counted).
         j.emitted = collect_emitted(spec, seg, &new_files);
-        let mut expect = o.outcome.clone();
+        // a portfolio re-raises some member's payload (or trips its own assertion); what a replay must
+        // reproduce is the member's failure, i.e. the body's own payload
+        let mut expect = if is_pf {
+            Outcome::Panic {
+                ty: "&str".into(),
+                text: bodies::ORDER_TEXT.to_string(),
+            }
+        } else {
+            o.outcome.clone()
+        };
         if env.mutation.as_deref() == Some("oracle-expects-other-payload") {
             expect = Outcome::Panic {
                 ty: "String".into(),
@@ -1073,7 +1087,15 @@ pub fn check(tier: Tier) -> ! {
     let rr_sched = rr_schedules(&env, &mut res);
     let mut jobs: Vec<Vec<RunSpec>> = Vec::new();
     let mut families: Vec<(String, usize)> = Vec::new();
+    // development aid: VX_C12_FAMILIES=<substring> restricts the run to matching families (the run is
+    // then reported as not exhaustive)
+    let only = std::env::var("VX_C12_FAMILIES").ok();
     let mut fam = |name: &str, jobs: &mut Vec<Vec<RunSpec>>, f: &dyn Fn(&mut Vec<Vec<RunSpec>>)| {
+        if let Some(o) = &only {
+            if !name.contains(o.as_str()) {
+                return;
+            }
+        }
         let before = jobs.len();
         f(jobs);
         families.push((name.to_string(), jobs.len() - before));
@@ -1314,7 +1336,10 @@ pub fn check(tier: Tier) -> ! {
         "mean_child_ms",
         CHILD_BUSY_US.load(Ordering::Relaxed) as f64 / 1000.0 / (CHILD_JOBS.load(Ordering::Relaxed).max(1) as f64),
     );
-    res.cov("exhaustive", !capped && res.machinery_errors.is_empty());
+    res.cov(
+        "exhaustive",
+        !capped && res.machinery_errors.is_empty() && std::env::var("VX_C12_FAMILIES").is_err(),
+    );
     if capped {
         res.cov("cap", format!("wall-clock budget of {} s hit; histories not run: {}", budget.as_secs(), jobs.len() as u64 - evaluations));
     }
@@ -1349,19 +1374,25 @@ pub fn check(tier: Tier) -> ! {
     vx::common::finish(&ctx, res)
 }
 
-/// Portfolio oracle: the run fails iff at least one member fails when run alone; failing members
-/// emit per the portfolio's configuration (None: nothing; Print: between 1 and #failing schedules on
-/// stderr — exactly #failing when members are not stopped; File: same for files in the run's
-/// directory), each emitted schedule replays to the Order body's own payload.
+/// Portfolio oracle: the run fails iff at least one member fails when run alone (verdicts measured by
+/// solo runs of the same body under the same scheduler). Emission / replay of a failing portfolio
+/// were judged in `judge_history` with the single-run rules (None: nothing; Print / File: at least
+/// one schedule in the configured place, one of which replays to the body's own payload).
 fn judge_portfolios(results: &[Option<HistoryResult>], solo: &BTreeMap<Sched, bool>, res: &mut CheckResult) -> (u64, u64) {
     let mut n = 0u64;
     let mut classes: BTreeSet<(String, String)> = BTreeSet::new();
+    let have_pass = solo.values().any(|v| !*v);
+    let have_fail = solo.values().any(|v| *v);
+    let mut any_pf = false;
     for r in results.iter().flatten() {
         let pos = r.runs.len() - 1;
         let pf = match &r.runs[pos].portfolio {
             Some(p) => p,
             None => continue,
         };
+        any_pf = true;
+        let names = dir_names(&r.runs, pos);
+        let dn = |d: usize| names.get(&d).cloned().unwrap_or_else(|| format!("dir{}", d));
         let obs = match &r.obs {
             Some(o) => o,
             None => {
@@ -1369,7 +1400,7 @@ fn judge_portfolios(results: &[Option<HistoryResult>], solo: &BTreeMap<Sched, bo
                 if let Some(j) = r.judgements.get(pos) {
                     for s in &j.syms {
                         res.finding(
-                            format!("C12 portfolio: {}", s.text(&|d| format!("dir{}", d))),
+                            format!("C12 portfolio: {}", s.text(&dn)),
                             format!("[{}]", shape_plain(&r.runs)),
                             json!({"history": r.runs, "judged_run": pos, "symptom": s.class()}),
                         );
@@ -1392,85 +1423,54 @@ fn judge_portfolios(results: &[Option<HistoryResult>], solo: &BTreeMap<Sched, bo
         let n_fail = verdicts.iter().filter(|v| **v).count();
         let failed = matches!(obs.runs[pos].outcome, Outcome::Panic { .. });
         let j = &r.judgements[pos];
-        let n_err = r.stderr_schedules[pos];
-        let n_files = j.emitted.iter().filter(|e| e.from_file).count();
-        let own_files = match r.runs[pos].pers {
-            Pers::File(d) => {
-                let prefix = format!("/d{}/", d);
-                j.emitted.iter().filter(|e| e.from_file && e.value.contains(&prefix)).count()
-            }
-            _ => 0,
-        };
-        let mut syms: Vec<String> = Vec::new();
+        let vtxt = verdicts.iter().map(|v| if *v { "fail" } else { "pass" }).collect::<Vec<_>>().join(",");
+        let mut found: Vec<(String, String)> = Vec::new();
         if failed != (n_fail > 0) {
-            syms.push(if failed {
-                "portfolio fails although no member fails".to_string()
+            let s = if failed {
+                "portfolio fails although no member fails"
             } else {
-                "portfolio passes although a member fails".to_string()
-            });
+                "portfolio passes although a member fails"
+            };
+            found.push((
+                format!("C12 portfolio members=[{}] stop_on_first_failure={}: {}", vtxt, pf.stop_on_first_failure, s),
+                s.to_string(),
+            ));
         }
-        let in_range = |k: usize| {
-            if n_fail == 0 {
-                k == 0
-            } else if pf.stop_on_first_failure {
-                k >= 1 && k <= n_fail
-            } else {
-                k == n_fail
-            }
-        };
-        match r.runs[pos].pers {
-            Pers::None => {
-                if n_err > 0 || n_files > 0 {
-                    syms.push("schedule emitted although persistence is None".into());
-                }
-            }
-            Pers::Print => {
-                if !in_range(n_err) {
-                    syms.push(format!("{} schedule(s) printed for {} failing member(s)", n_err, n_fail));
-                }
-                if n_files > 0 {
-                    syms.push("schedule file written although persistence is Print".into());
-                }
-            }
-            Pers::File(_) => {
-                if !in_range(own_files) {
-                    syms.push(format!("{} file(s) in the run's directory for {} failing member(s)", own_files, n_fail));
-                }
-                if n_files > own_files {
-                    syms.push("schedule file written to another run's directory".into());
-                }
-                if n_err > 0 {
-                    syms.push("schedule printed although persistence is File".into());
-                }
-            }
+        let shape = shape_key(&r.runs, Some(obs), pos).replace("[task-panic]", "");
+        for s in &j.syms {
+            found.push((format!("C12 portfolio {}: {}", shape, s.text(&dn)), s.text(&dn)));
         }
-        let shape = format!(
-            "{}members=[{}] stop_on_first_failure={} {}",
-            if pos > 0 {
-                format!("{}→", shape_key(&r.runs, Some(obs), pos - 1).replace("[pass]", "").replace("[task-panic]", "").replace("[condition]", ""))
+        classes.insert((
+            format!("{} members=[{}] stop={}", shape, vtxt, pf.stop_on_first_failure),
+            if found.is_empty() {
+                format!("ok/{}", if failed { "fails" } else { "passes" })
             } else {
-                String::new()
+                found.iter().map(|f| f.1.clone()).collect::<Vec<_>>().join("; ")
             },
-            verdicts.iter().map(|v| if *v { "fail" } else { "pass" }).collect::<Vec<_>>().join(","),
-            pf.stop_on_first_failure,
-            r.runs[pos].pers.mode()
-        );
-        classes.insert((shape.clone(), if syms.is_empty() { "ok".into() } else { syms.join("; ") }));
-        for s in syms {
+        ));
+        for (key, s) in found {
             res.finding(
-                format!("C12 portfolio {}: {}", shape, s),
+                key,
                 format!(
-                    "[{}]: {}; portfolio returned {}; members' solo verdicts {:?}; schedules on stderr {}, files {}",
+                    "[{}]: {}; portfolio returned {}; members' solo verdicts [{}]; schedules on stderr {}, new files {}, emitted in the configured way {}, of which reproducing {}",
                     shape_plain(&r.runs),
                     s,
                     obs.runs[pos].outcome.short(),
-                    verdicts,
-                    n_err,
-                    n_files
+                    vtxt,
+                    r.stderr_schedules[pos],
+                    j.emitted.iter().filter(|e| e.from_file).count(),
+                    j.in_place,
+                    j.in_place_ok
                 ),
                 json!({"history": r.runs, "judged_run": pos, "symptom": s}),
             );
         }
+    }
+    if any_pf && !(have_pass && have_fail) {
+        res.machinery_errors.push(format!(
+            "portfolio members do not cover both verdicts (solo verdicts: {:?}); the 'exactly one / none / both fail' cases are not all exercised",
+            solo
+        ));
     }
     (n, classes.len() as u64)
 }
@@ -1542,15 +1542,18 @@ pub fn replay_file(path: &str) -> ! {
                 ro.short()
             );
         }
-        if j.judged {
-            if j.syms.is_empty() {
+        let is_pf = runs[i].portfolio.is_some();
+        for s in &j.syms {
+            println!("    verdict             : VIOLATES — {}", s.text(&dn));
+        }
+        if j.syms.is_empty() {
+            if j.judged {
                 println!("    verdict             : conforms");
+            } else if is_pf {
+                println!("    verdict             : emission conforms (whether the portfolio must fail is decided from the members' solo verdicts in the full check)");
+            } else {
+                println!("    verdict             : not a failing run, nothing to judge");
             }
-            for s in &j.syms {
-                println!("    verdict             : VIOLATES — {}", s.text(&dn));
-            }
-        } else {
-            println!("    verdict             : not a failing run / judged by the portfolio oracle");
         }
     }
     let _ = std::fs::remove_dir_all(&scratch);
